@@ -158,4 +158,68 @@ def fenc(a):
 def units(a, k):
     """view an array of shape (..., d1..dk) as a list of its unit blocks"""
     a = np.asarray(a)
-    return a.reshape((-1,) + a.shape[a.ndim - k:])
+    lead = int(np.prod(a.shape[:a.ndim - k])) if a.ndim > k else 1
+    return a.reshape((lead,) + a.shape[a.ndim - k:])
+
+
+# ---- exact helpers for C18 ---------------------------------------------------------------------
+def bil(F_, x, y):
+    n = len(x)
+    return sum(x[i] * F_[i][j] * y[j] for i in range(n) for j in range(n))
+
+
+def gs_exact(F_, rows):
+    """unnormalised indefinite Gram-Schmidt exactly; returns (rows, norms) or None if a null row is hit"""
+    out, norms = [], []
+    for r in rows:
+        r = list(r)
+        for o, q in zip(out, norms):
+            if q == 0:
+                return None
+            c = bil(F_, r, o) / q
+            r = [a - c * b for a, b in zip(r, o)]
+        out.append(r)
+        norms.append(bil(F_, r, r))
+    return out, norms
+
+
+def rform(rng, p, q, squares=True, distinct=False):
+    """rational symmetric form Q^T D Q of signature (p positive, q negative) with |D_ii| rational squares;
+    returns (B, Q, D)"""
+    n = p + q
+    Qm = cayley(rng, n, 3, sparse=0.2)
+    while True:
+        vals = [F(rng.randint(1, 6), rng.randint(1, 3)) for _ in range(n)]
+        if not distinct or len(set(vals)) == n:
+            break
+    D = [(v * v if squares else v) * (1 if i < p else -1) for i, v in enumerate(vals)]
+    rng.shuffle(D)
+    Dm = [[D[i] if i == j else F(0) for j in range(n)] for i in range(n)]
+    B = mul(mul(tr(Qm), Dm), Qm)
+    return B, Qm, D
+
+
+def rank_mat(rng, m, n, rk, num=3, den=2):
+    """rational m x n matrix of rank exactly rk (product of full-rank factors)"""
+    while True:
+        L_ = Q.rmat(rng, m, rk, num, den)
+        R_ = Q.rmat(rng, rk, n, num, den)
+        A = mul(L_, R_) if rk > 0 else [[F(0)] * n for _ in range(m)]
+        if rk == 0 or exact_rank(A) == rk:
+            return A
+
+
+def exact_rank(M):
+    M = [list(r) for r in M]
+    rk, rows, cols = 0, len(M), len(M[0]) if M else 0
+    for c in range(cols):
+        p = next((r for r in range(rk, rows) if M[r][c] != 0), None)
+        if p is None:
+            continue
+        M[rk], M[p] = M[p], M[rk]
+        for r in range(rows):
+            if r != rk and M[r][c] != 0:
+                f = M[r][c] / M[rk][c]
+                M[r] = [a - f * b for a, b in zip(M[r], M[rk])]
+        rk += 1
+    return rk
